@@ -1,4 +1,5 @@
 """Driver of C09 (exit status truth) and C10 (lifecycle safety)."""
+import io
 import json
 import os
 import signal
@@ -326,6 +327,11 @@ def real_C10(ctx, pexpect, thorough):
                 continue
             c = pexpect.spawn(sys.executable, ['-c', prog], timeout=10)
             c.expect('R')
+            if len(seq) + len(name) & 1:
+                # a log file that the application has closed already is still attached: closing the child must not depend on it
+                lf = io.BytesIO()
+                c.logfile_send = lf
+                lf.close()
             if name == 'stopped':
                 t0 = time.time()
                 while proc_state(c.pid) != 'T' and time.time() - t0 < 3:
@@ -421,6 +427,7 @@ def real_C10(ctx, pexpect, thorough):
     ctx.oracle_stats['real_children'] = tried
     socket_close_releases(ctx, pexpect)
     async_after_close(ctx, pexpect)
+    drop_releases(ctx, pexpect)
 
 
 def async_after_close(ctx, pexpect):
@@ -561,6 +568,67 @@ def socket_close_releases(ctx, pexpect):
                 pass
             return
     ctx.oracle_stats['socket_close_scenarios'] = tried
+
+
+def drop_releases(ctx, pexpect):
+    """dropping the object (the last reference goes away, the collector has run): whatever was done with it before - expect with
+    string, compiled and exact patterns, listed or raised TIMEOUT / EOF, sends, log files - the descriptor is released and the
+    child is gone.  Nothing in the library may keep dropped objects alive."""
+    import gc
+    import re
+    tried = 0
+    for hist in (['expect-str'], ['expect-str', 'timeout-raised'], ['expect-list', 'send'], ['exact', 'timeout-listed'], ['expect-str', 'eof'],
+                 ['compile', 'expect-str', 'logfile']):
+        prog = 'print("R")' if 'eof' in hist else 'import time; print("R"); time.sleep(30)'
+        c = pexpect.spawn(sys.executable, ['-c', prog], timeout=5)
+        try:
+            for h_ in hist:
+                if h_ == 'expect-str':
+                    c.expect(['R', 'never'])
+                elif h_ == 'expect-list':
+                    c.expect_list([re.compile(b'R')])
+                elif h_ == 'exact':
+                    c.expect_exact(b'R')
+                elif h_ == 'compile':
+                    c.compile_pattern_list(['a.c', b'xyz'])
+                elif h_ == 'send':
+                    c.sendline('x')
+                elif h_ == 'logfile':
+                    c.logfile_read = io.BytesIO()
+                elif h_ == 'timeout-raised':
+                    try:
+                        c.expect('never', timeout=0.1)
+                    except pexpect.TIMEOUT:
+                        pass
+                elif h_ == 'timeout-listed':
+                    c.expect(['never', pexpect.TIMEOUT], timeout=0.1)
+                elif h_ == 'eof':
+                    c.expect(pexpect.EOF)
+        except Exception as e:
+            ctx.hit('C10/drop', 'history %r raised %r' % (hist, e), {'history': hist})
+            return
+        pid, fd = c.pid, c.child_fd
+        ino = os.fstat(fd).st_ino, os.fstat(fd).st_dev
+        del c
+        gc.collect()
+        t0 = time.time()
+        while proc_state(pid) is not None and time.time() - t0 < 3:
+            time.sleep(0.05)
+        tried += 1
+        try:
+            st = os.fstat(fd)
+            fd_open = (st.st_ino, st.st_dev) == ino
+        except OSError:
+            fd_open = False
+        if proc_state(pid) is not None or fd_open:
+            ctx.hit('C10/drop', 'after %r the object was dropped and the collector run: child state %r (None = gone and reaped), its descriptor %d is %s'
+                    % (hist, proc_state(pid), fd, 'still open' if fd_open else 'released'), {'history': hist})
+            try:
+                os.kill(pid, 9)
+            except OSError:
+                pass
+            return
+    ctx.oracle_stats['drop_histories'] = tried
 
 
 def foreign_fd_probe(pexpect, c, fd):
